@@ -17,15 +17,18 @@ inductive Cov where
 /-- the alignment relation of one record: (0-based reference index, coverage), from SAMv1 §1.4.6:
     M,=,X align a query base to a reference base; D deletes a reference base; N skips reference
     bases (no coverage); I and S consume query only; H and P consume nothing -/
+def isAligned (op : Nat) : Bool := op == 0 || op == 7 || op == 8      -- M = X
+def isQueryOnly (op : Nat) : Bool := op == 1 || op == 4              -- I S
+
 def covList (seq : List Nat) : List (Nat × Nat) → Nat → Nat → List (Nat × Cov)
   | [], _, _ => []
   | (op, len) :: rest, q, r =>
-    match op with
-    | 0 | 7 | 8 => ((List.range len).map fun k => (r + k, Cov.base (seq.getD (q + k) 0))) ++ covList seq rest (q + len) (r + len)
-    | 2 => ((List.range len).map fun k => (r + k, Cov.del)) ++ covList seq rest q (r + len)
-    | 3 => covList seq rest q (r + len)
-    | 1 | 4 => covList seq rest (q + len) r
-    | _ => covList seq rest q r
+    if isAligned op then
+      ((List.range len).map fun k => (r + k, Cov.base (seq.getD (q + k) 0))) ++ covList seq rest (q + len) (r + len)
+    else if op == 2 then ((List.range len).map fun k => (r + k, Cov.del)) ++ covList seq rest q (r + len)   -- D
+    else if op == 3 then covList seq rest q (r + len)                                                         -- N
+    else if isQueryOnly op then covList seq rest (q + len) r
+    else covList seq rest q r                                                                                 -- H P
 
 def covOf (rec : SamRec) : List (Nat × Cov) := covList rec.seq rec.cigar 0 rec.pos
 
@@ -35,12 +38,11 @@ def covAt (rec : SamRec) (i : Nat) : Option Cov := ((covOf rec).find? fun e => e
 def insList (seq : List Nat) : List (Nat × Nat) → Nat → Nat → List (Nat × List Nat)
   | [], _, _ => []
   | (op, len) :: rest, q, r =>
-    match op with
-    | 0 | 7 | 8 => insList seq rest (q + len) (r + len)
-    | 2 | 3 => insList seq rest q (r + len)
-    | 1 => (r, (seq.drop q).take len) :: insList seq rest (q + len) r
-    | 4 => insList seq rest (q + len) r
-    | _ => insList seq rest q r
+    if isAligned op then insList seq rest (q + len) (r + len)
+    else if op == 2 || op == 3 then insList seq rest q (r + len)
+    else if op == 1 then (r, (seq.drop q).take len) :: insList seq rest (q + len) r
+    else if op == 4 then insList seq rest (q + len) r
+    else insList seq rest q r
 
 /-- a query's symbol at reference position i before the flank rule: the base if exactly one base value is
     aligned there, 'N' if two different ones are, '-' if some record deletes it and none aligns a base,
